@@ -51,7 +51,13 @@ static void rec_cls (FILE* o)
 static void rec_round (FILE* o, unsigned stride, unsigned phase)
 {
     static const unsigned ns[] = {0, 1, 2, 3, 4, 5, 6, 7, 8, 9, 10, 11, 12, 15, 16, 31, 32, 0x80000000u, 0xffffffffu};
-    for (unsigned b = phase % stride; b < 65536; b += stride)
+    for (unsigned b = 0; b < 65536; ++b)
+    {
+        // boundary patterns (extreme exponents incl. inf/NaN, first/middle/last significands)
+        // are always recorded; the rest with the given stride
+        unsigned e = (b >> 10) & 31, m = b & 0x3ff;
+        bool     boundary = e == 0 || e >= 30 || m <= 1 || m >= 0x3fe || (m >= 0x1ff && m <= 0x201);
+        if (!boundary && (b % stride) != (phase % stride)) continue;
         for (unsigned n : ns)
         {
             half r = mk (b).round (n);
@@ -59,6 +65,7 @@ static void rec_round (FILE* o, unsigned stride, unsigned phase)
             vt_w32 (o, n);
             fprintf (o, ",\"out\":%u}\n", (unsigned) r.bits ());
         }
+    }
 }
 
 static const char* opname[4] = {"add", "sub", "mul", "div"};
